@@ -18,6 +18,9 @@ INFO = dict(
 )
 INT32_MAX = 2 ** 31 - 1
 KINDS = ("times", "times_ns", "inside1", "inside2", "border", "param", "obs")
+# generators given an initial count (nt_start / n_start) WITHOUT residual-adaptive refinement: the option is documented as ignored, the
+# epoch is the whole store
+OPT_KINDS = ("times_opt", "inside1_opt", "times_ns_opt")
 
 
 def configs(tier):
@@ -30,6 +33,10 @@ def configs(tier):
                 out.append(dict(kind=kind, n=n, b=b, mode="step", x64=False))
                 if n <= (5 if tier == "quick" else 7) and (tier == "thorough" or kind in ("times", "inside2", "border", "param", "obs")):
                     out.append(dict(kind=kind, n=n, b=b, mode="epochs", x64=False))
+    for kind in OPT_KINDS:
+        for (n, b) in ((3, 1), (4, 2), (4, 3)):
+            out.append(dict(kind=kind, n=n, b=b, mode="step", x64=False))
+            out.append(dict(kind=kind, n=n, b=b, mode="epochs", x64=False))
     return out
 
 
@@ -41,6 +48,16 @@ def build(kind, n, b):
     key = jax.random.PRNGKey(3)
     if kind == "times":
         g = DataGeneratorODE(key, n, 0.0, 1.0, b, method="uniform")
+        return g, "temporal_batch", lambda g: g.times, lambda g: g.curr_time_idx
+    if kind == "times_opt":
+        g = DataGeneratorODE(key, n, 0.0, 1.0, b, method="uniform", nt_start=1)
+        return g, "temporal_batch", lambda g: g.times, lambda g: g.curr_time_idx
+    if kind == "inside1_opt":
+        g = CubicMeshPDEStatio(key=key, n=n, nb=None, omega_batch_size=b, omega_border_batch_size=None, dim=1, min_pts=(0.0,), max_pts=(1.0,), n_start=1)
+        return g, "inside_batch", lambda g: g.omega, lambda g: g.curr_omega_idx
+    if kind == "times_ns_opt":
+        g = CubicMeshPDENonStatio(key=key, n=2, nb=None, nt=n, omega_batch_size=1, omega_border_batch_size=None, temporal_batch_size=b, dim=1,
+                                  min_pts=(0.0,), max_pts=(1.0,), tmin=0.0, tmax=1.0, nt_start=1, n_start=1)
         return g, "temporal_batch", lambda g: g.times, lambda g: g.curr_time_idx
     if kind == "times_ns":
         g = CubicMeshPDENonStatio(key=key, n=2, nb=None, nt=n, omega_batch_size=1, omega_border_batch_size=None,
